@@ -34,10 +34,10 @@ for d, c, err in ex.map(run_seed, dirs):
     if c is None:
         print(name, "does not apply", err[:200]); continue
     sigs = sorted(set(l.split("sig=")[-1] for l in c.stdout.splitlines() if l.startswith("VIOLATION property")))
-    notes = open(os.path.join(d, "notes.md")).read() if os.path.exists(os.path.join(d, "notes.md")) else ""
+    notes = open(os.path.join(d, "notes.md"), errors="replace").read() if os.path.exists(os.path.join(d, "notes.md")) else ""
     m = re.search(r"(?is)(what (?:it )?needs[^\n]*\n(?:.+\n){1,12})", notes)
     demo = [f for f in os.listdir(d) if f.startswith("demo")]
-    vlog = open(os.path.join(d, "verify.log")).read() if os.path.exists(os.path.join(d, "verify.log")) else ""
+    vlog = open(os.path.join(d, "verify.log"), errors="replace").read() if os.path.exists(os.path.join(d, "verify.log")) else ""
     meta = {
         "id": name, "breaks_property": pid, "origin": "independent sub-agent given only the property text and its own worktree",
         "patch": "patch.diff (applies to /repo HEAD %s)" % sh("git rev-parse --short HEAD", "/repo").stdout.strip(),
